@@ -253,6 +253,28 @@ Definition run_concbound (x : xval) : xval :=
   | _ => bad_input
   end.
 
+(** limiter.server_par: concurrent clients on a real server.  127.0.0.1 floods over several connections at
+    a time; every bystander (own address) makes [nconn] connections of [nreq] requests at the same
+    moment, all its calls together (accept + requests) within every configured maximum.  What the
+    flooder gets depends on the interleaving; every bystander is served every time
+    ([concurrent_own_traffic_never_limited], for each of the two managers).
+    input (L checked sconf (L (N conns) (N reqs) (N parallel)) (L (L (N nconn) (N nreq)) ...)) *)
+Definition d_bystander (x : xval) : option (nat * nat) :=
+  match x with XL [XN c; XN r] => Some (N.to_nat c, N.to_nat r) | _ => None end.
+Definition run_server_par (x : xval) : xval :=
+  match x with
+  | XL [c; cf; XL [XN _; XN _; XN _]; bs] =>
+      match d_bool c, d_sconfig cf, d_list d_bystander bs with
+      | Some _, Some sc, Some bys =>
+          let limit := N.min (max_requests (pre_cfg sc)) (max_requests (host_cfg sc)) in
+          if forallb (fun b => N.of_nat (fst b * S (snd b)) <=? limit) bys
+          then XL [XL (map (fun b => XL (repeat (XL [XN 0; XL (repeat (XN 200) (snd b)); XN 0]) (fst b))) bys); XN 1]
+          else XL [XN 96]
+      | _, _, _ => bad_input
+      end
+  | _ => bad_input
+  end.
+
 (** limiter.concseq: one thread, every access of a call at the same clock reading, each call run
     to completion — the concurrent semantics on a sequential history.  Input and output as
     limiter.register. *)
@@ -287,4 +309,5 @@ Definition limiterconc_table : list (bytes * (xval -> xval)) :=
   [ (B "limiter.conc", run_conc);
     (B "limiter.conc_spec", run_conc_spec);
     (B "limiter.concbound", run_concbound);
+    (B "limiter.server_par", run_server_par);
     (B "limiter.concseq", run_concseq) ].
